@@ -8,6 +8,8 @@ Clauses
   array        periodicarray(): deletion count implied by the edge component, deleted atoms are duplicates, no overlap
                across the two in-plane periodic directions, old_id maps back, displacement field re-derived
   disregistry  atomman.defect.disregistry across the slip plane accumulates to one Burgers vector (analytic tail bound)
+               monopole / array judge the LAST call of a history on one object (shift given at initialisation, then a different
+               explicit shift at the call; an earlier monopole()/periodicarray() call with other arguments)
   sizemults    the documented argument types of sizemults (tuple; list left untouched, call repeatable)
 """
 import math
@@ -26,7 +28,12 @@ RULE = ("hand-built unit cells (sc, B2, L1_2, fcc/diamond conventional 'f', bcc 
         "assignments as default / strings / float or integer vectors, shift by default / index / Cartesian / box-relative "
         "vector at construction or at the call, size multipliers (list or tuple, amin/bmin/cmin), centre absolute / "
         "box-relative / integer typed, both boundary shapes, widths 0-6 A absolute or scaled, linear or solution field, "
-        "cutoff.  Non-trivial: edge or mixed character AND a non-default m/n assignment.")
+        "cutoff.  monopole / array: in three cases of four the ONE Dislocation object has a history before the judged call - "
+        "built with a shift / shiftindex / shiftscale choice and called with a different explicit one (shiftindex=0, other "
+        "indices, Cartesian or box-relative vectors as list / array / tuple, the vector equal to an entry of shifts, the "
+        "all-zero vector), and / or an earlier monopole() or periodicarray() call with its own shift choice, size, centre and "
+        "boundary; the judged call is always the last one.  Non-trivial: edge or mixed character AND a non-default m/n "
+        "assignment.")
 ASSUMPTIONS = [
     "the elastic solution object (VolterraDislocation.displacement, .burgers, .m, .n, .transform) is judged by C12; here it is "
     "evaluated by the oracle at positions the oracle chooses",
@@ -217,6 +224,111 @@ def build(c):
     return c.d
 
 
+FIRSTCAP = 800      # atoms in the configuration of an earlier (unjudged) call of a history
+
+
+def _as(vec, how):
+    vec = [float(x) for x in vec]
+    return np.array(vec) if how == 'array' else tuple(vec) if how == 'tuple' else vec
+
+
+def resolve_callshift(c, spec, gen, cen):
+    """(expected Cartesian shift, keyword arguments, tag) of a shift choice given to monopole() / periodicarray() on the existing
+    object c.d.  'keep' (neither shift nor shiftindex given): (None, {}, 'keep') - the object's shift stays what it is."""
+    shifts = np.array(c.d.shifts, dtype=float)
+    n, rv = len(shifts), c.rvects
+    k = spec['kind']
+    if k == 'keep':
+        return None, {}, 'keep'
+    if k == 'index0':
+        return shifts[0], {'shiftindex': 0}, 'index'
+    if k == 'index':
+        i = spec['index'] % n
+        vec = shifts[i]
+        if spec['index'] < 0:
+            i -= n
+        return vec, {'shiftindex': int(i)}, 'index'
+    if k == 'zero':
+        # the all-zero vector leaves an atomic plane on y = 0.  periodicarray answers with its documented refusal (so only half
+        # of the draws are spent on it); monopole is defined when the centre moves the cut plane off that atomic plane
+        # (resolve_center keeps it short of the next one).  Otherwise: the explicit vector equal to one of .shifts
+        if (gen == 'periodicarray' and spec['index'] % 2 == 0) or (gen == 'monopole' and cen['kind'] in ('abs', 'scaled') and abs(cen['n']) >= 0.05):
+            v = spec['variant']
+            kw = {'shift': [0, 0, 0] if v == 'int' else np.zeros(3) if v == 'array' else [0.0, 0.0, 0.0]}
+            if v == 'scaled':
+                kw['shiftscale'] = True
+            return np.zeros(3), kw, 'zero'
+        spec = {'kind': 'vec', 'index': spec['index'], 'inplane': [0.0, 0.0], 'normal': 0.0, 'as': 'list'}
+        k = 'vec'
+    i = spec['index'] % n
+    ya, yb = gap_at_zero(c, np.array(c.d.rcell.atoms.pos), shifts[i])
+    vec = (shifts[i] + spec['inplane'][0] * rv[c.line] + spec['inplane'][1] * rv[c.motion]
+           + spec['normal'] * (ya - yb) / 2 * c.n_ax)
+    if k == 'vecscaled':
+        return vec, {'shift': _as(np.linalg.solve(rv.T, vec), spec.get('as')), 'shiftscale': True}, 'vecscaled'
+    return vec, {'shift': _as(vec, spec.get('as'))}, 'vec'
+
+
+def apply_history(c, case, gen, labels):
+    """History of the ONE Dislocation object c.d (built by build() with the shift option given at initialisation) up to the
+    judged call of `gen`: an optional earlier generator call with its own arguments, then the shift choice of the judged call.
+    Leaves c.shift (the shift the judged call asks for) and c.callshift (its keyword arguments)."""
+    h = case.get('hist')
+    if not h:
+        if c.callshift.get('shiftindex') == 0:
+            labels.add('explicit_shiftindex0')
+        return
+    d = c.d
+    shifts0 = np.array(d.shifts, dtype=float)[0]
+    ctor = np.array(c.shift, dtype=float)
+    f = h.get('first')
+    if f:
+        vec, kw, tag = resolve_callshift(c, f['shift'], f['gen'], f['center'])
+        if vec is not None:
+            c.shift = vec
+        c.callshift = kw
+        if f['gen'] == 'monopole':
+            r = run_monopole(c, f, cap=FIRSTCAP)
+        else:
+            r = run_array(c, f, set(), cap=FIRSTCAP)
+        labels.add('history_second_call')
+        labels.add('history_first_' + ('refused' if r is None else f['gen']))
+        labels.add('history_first_shift_' + tag)
+        if f['gen'] != gen:
+            labels.add('history_other_generator')
+    current = np.array(c.shift, dtype=float)        # the shift the object holds now: last one set, at initialisation or by a call
+    vec, kw, tag = resolve_callshift(c, h['call'], gen, case['center'])
+    c.callshift = kw
+    if vec is None:
+        # no shift argument: "will use the shift set during class initialization" (monopole) / the attribute `shift`, "the
+        # particular shift value that will be ... used".  The generator only draws this when both name the same vector.
+        labels.add('history_keep')
+        require(np.abs(np.asarray(d.shift, dtype=float) - current).max() <= 1e-9 * (1 + np.abs(current).max()),
+                lambda: 'attribute shift = %r before a call without shift arguments, last set %r' % (d.shift, current))
+        return
+    c.shift = vec
+    labels.add('call_shift_' + tag)
+    differs = np.abs(vec - current).max() > 1e-6
+    if f:
+        if differs:
+            labels.add('history_shift_changes')
+    elif c.cr['shift']['kind'] != 'default' and np.abs(vec - ctor).max() > 1e-6:
+        labels.add('history_ctor_shift_differs')
+    if kw.get('shiftindex') == 0:
+        labels.add('explicit_shiftindex0')
+        if np.abs(current - shifts0).max() > 1e-6:
+            labels.add('explicit_shiftindex0_stale')
+    if tag == 'zero':
+        labels.add('explicit_zero_shift')
+
+
+def check_shift_attribute(c, d, when):
+    """the attribute `shift` is documented as the particular shift value that was used to construct the dislocation system"""
+    got = np.asarray(d.shift, dtype=float)
+    require(got.shape == (3,) and np.abs(got - c.shift).max() <= 1e-9 * (1 + np.abs(c.shift).max()),
+            lambda: 'attribute shift = %r %s, the call asked for %r' % (d.shift, when, c.shift.tolist()))
+
+
 def check_frame(c, d):
     """The rotated cell must be in the frame of the elastic solution: its box vectors are the crystal vectors `uvws` mapped
     by `transform`.  (Everything downstream evaluates the solution at the Cartesian positions of this cell.)"""
@@ -249,9 +361,23 @@ def check_frame(c, d):
             ang = math.degrees(math.acos(max(-1.0, min(1.0, (np.trace(R) - 1) / 2))))
             ax = _rot_axis(R)
             half_turn = (not c.cyclic and abs(ang - 180) < 1e-5 and abs(abs(np.dot(ax, c.n_ax)) - 1) < 1e-6)
+            # the open finding is exactly "rcell is left in the LAMMPS-normalised orientation rotate() returns":
+            # any other rotation of the right crystal is a different defect and stays unkeyed
+            key = KEY_ANTI if half_turn else (KEY_SKEW if _is_lammps_normal_form_of(rv, exp) else None)
             raise Violation(detail + '\nthe cell is the right crystal turned by %.6g deg about %r' % (ang, np.round(ax, 4).tolist()),
-                            key=KEY_ANTI if half_turn else KEY_SKEW)
+                            key=key)
     raise Violation(detail)
+
+
+def _is_lammps_normal_form_of(rv, exp):
+    """rv equals the cell exp re-expressed with a along x, b in the xy plane (right-handed), to 1e-6"""
+    a, b, c = (np.array(v, dtype=float) for v in exp)
+    ex = a / np.linalg.norm(a)
+    by = b - np.dot(b, ex) * ex
+    ey = by / np.linalg.norm(by)
+    ez = np.cross(ex, ey)
+    lmp = np.array([[np.dot(v, ex), np.dot(v, ey), np.dot(v, ez)] for v in (a, b, c)])
+    return bool(np.abs(np.array(rv, dtype=float) - lmp).max() <= 1e-6 * np.abs(lmp).max())
 
 
 def _rot_axis(R):
@@ -475,10 +601,15 @@ def oracle_reference(case):
 
 # ----------------------------------------------------------------------------- monopole
 
+_hist_monopole, _hist_array = g.histories('monopole'), g.histories('periodicarray')
+_disl_fresh, _disl_hist = g.dislocations(partial_share=True), g.dislocations(partial_share=True, ctor_shift_only=True)
+
+
 @st.composite
 def monopole_cases(draw):
-    return {'disl': draw(g.dislocations(partial_share=True)), 'size': draw(g.sizes()), 'center': draw(g.centers()),
-            'boundary': draw(g.boundaries())}
+    h = draw(_hist_monopole)
+    return {'disl': draw(_disl_hist if h else _disl_fresh), 'size': draw(g.sizes()), 'center': draw(g.centers()),
+            'boundary': draw(g.boundaries()), 'hist': h}
 
 
 def face_distances(c, vects, origin, pos):
@@ -533,11 +664,9 @@ def outside_region(c, shape, w, vects, origin, pos, axis_point=None):
     return rad > R, np.abs(rad - R) < 1e-8
 
 
-def oracle_monopole(case):
-    c = setup(case['disl'])
-    labels = labels_of(c)
-    d = build(c)
-    k, exp, kw = resolve_sizes(c, case['size'])
+def run_monopole(c, case, cap=CAP):
+    """calls monopole with the size / centre / boundary of the case and the shift choice in c.callshift (expected: c.shift)"""
+    k, exp, kw = resolve_sizes(c, case['size'], cap=cap)
     kw.update(c.callshift)
     vects, origin = expected_box(c, exp)
     center, ckw = resolve_center(c, case['center'], vects)
@@ -545,7 +674,19 @@ def oracle_monopole(case):
     w, bkw = boundary_setup(c, case['boundary'], vects, origin)
     kw.update(bkw)
     kw['return_base_system'] = True
-    base, disl = call_generator(c, d.monopole, kw)
+    base, disl = call_generator(c, c.d.monopole, kw)
+    return dict(base=base, disl=disl, kw=kw, exp=exp, k=k, vects=vects, origin=origin, center=center, w=w)
+
+
+def oracle_monopole(case):
+    c = setup(case['disl'])
+    labels = labels_of(c)
+    d = build(c)
+    apply_history(c, case, 'monopole', labels)
+    r = run_monopole(c, case)
+    base, disl, kw, exp, k = r['base'], r['disl'], r['kw'], r['exp'], r['k']
+    vects, origin, center, w = r['vects'], r['origin'], r['center'], r['w']
+    check_shift_attribute(c, d, 'after monopole()')
     check_reference(c, base, exp)
     N = base.natoms
     require(disl.natoms == N, lambda: 'monopole system has %d atoms, reference %d' % (disl.natoms, N))
@@ -616,8 +757,10 @@ _cutoff = st.sampled_from([None, None, None, 0.3, 0.5, 0.8])
 
 @st.composite
 def array_cases(draw):
-    cs = {'disl': draw(g.dislocations(partial_share=True)), 'size': draw(g.sizes()), 'center': draw(g.centers()),
-          'boundary': draw(g.boundaries(shapes=('box',))), 'linear': draw(st.integers(0, 2)) == 0, 'cutoff': draw(_cutoff)}
+    h = draw(_hist_array)
+    cs = {'disl': draw(_disl_hist if h else _disl_fresh), 'size': draw(g.sizes()), 'center': draw(g.centers()),
+          'boundary': draw(g.boundaries(shapes=('box',))), 'linear': draw(st.integers(0, 2)) == 0, 'cutoff': draw(_cutoff),
+          'hist': h}
     return cs
 
 
@@ -715,10 +858,12 @@ def oracle_array(case):
     labels = labels_of(c)
     d = build(c)
     am = c.am
+    apply_history(c, case, 'periodicarray', labels)
     r = run_array(c, case, labels)
     labels.add('linear' if case.get('linear') else 'solution')
     if r is None:
         return labels
+    check_shift_attribute(c, d, 'after periodicarray()')
     base, disl, vects, origin, center = r['base'], r['disl'], r['vects'], r['origin'], r['center']
     nfull, nrem, L, w, cutoff = r['nfull'], r['nrem'], r['L'], r['w'], r['cutoff']
     # the full reference system, rebuilt
@@ -1105,10 +1250,14 @@ CLAUSES = [
            desc='rcell/uvws/transform/shifts and the reference system: the unit cell crystal rotated by transform, shifted, filling the box once'),
     Clause('monopole', oracle_monopole, monopole_cases, quick=1800, thorough=36000,
            min_share={'nt': 0.06, 'bd_mixed': 0.12, 'bd_cylinder': 0.06, 'bd_box': 0.06, 'center_scaled': 0.03, 'center_abs': 0.05,
-                      'wrapped_along_line': 0.15},
+                      'wrapped_along_line': 0.15, 'history_second_call': 0.24, 'history_ctor_shift_differs': 0.08,
+                      'history_shift_changes': 0.15, 'history_other_generator': 0.08, 'explicit_shiftindex0': 0.15,
+                      'explicit_shiftindex0_stale': 0.08},
            desc='monopole: all reference atoms kept, displaced by the solution at (reference position - centre), periodic along the line only, boundary atoms re-typed exactly outside the box / cylinder region'),
     Clause('array', oracle_array, array_cases, quick=1800, thorough=36000,
-           min_share={'nt': 0.06, 'removed': 0.15, 'interior': 0.12, 'band': 0.07, 'linear': 0.06}, max_share={'refusal': 0.25},
+           min_share={'nt': 0.06, 'removed': 0.15, 'interior': 0.12, 'band': 0.07, 'linear': 0.06, 'history_second_call': 0.25,
+                      'history_ctor_shift_differs': 0.07, 'history_shift_changes': 0.15, 'history_other_generator': 0.1,
+                      'explicit_shiftindex0': 0.16, 'explicit_shiftindex0_stale': 0.08}, max_share={'refusal': 0.25},
            desc='periodic array: deletion count from the edge component, deleted atoms are duplicates, no overlap in-plane, old_id maps back, linear / solution displacement re-derived, pbc and box'),
     Clause('disregistry', oracle_disregistry, disreg_cases, quick=1000, thorough=20000,
            min_share={'nt': 0.05, 'tail': 0.12, 'exact_linear': 0.03, 'bookkeeping': 0.15, 'tripled': 0.01}, max_share={'refusal': 0.25},
